@@ -266,6 +266,9 @@ func run(prop, tier string) int {
 			shards = n
 		}
 	}
+	if cfg.Race && shards%2 == 1 {
+		shards++
+	}
 	results := make([]shardResult, shards)
 	var wg sync.WaitGroup
 	for s := 0; s < shards; s++ {
@@ -276,7 +279,8 @@ func run(prop, tier string) int {
 			defer cancel()
 			env := append(append([]string{}, baseEnv...), "VCHECK_MODE=search", "VCHECK_SHARD="+strconv.Itoa(s), "VCHECK_NSHARDS="+strconv.Itoa(shards))
 			b := bin
-			if cfg.Race {
+			if cfg.Race && s >= shards/2 {
+				// second half of the shards: the -race binary (schedules); first half: plain binary (histories)
 				b = raceBin
 				env = append(env, "GORACE=halt_on_error=1 exitcode=66")
 			}
@@ -502,8 +506,17 @@ func saveReplay(prop, raceLog, failPath string) string {
 	_ = os.MkdirAll(filepath.Join(root, "replays"), 0o755)
 	data, err := os.ReadFile(failPath)
 	if err != nil && raceLog != "" {
+		// the race detector halted the process: the script that was running is in current-<shard>.json
 		lg, _ := os.ReadFile(raceLog)
 		ff := failFile{Prop: prop, Sub: "c18-race-report", Message: tail(string(lg), 80), Case: json.RawMessage(`{}`)}
+		cur := strings.Replace(failPath, "fail-", "current-", 1)
+		if cb, cerr := os.ReadFile(cur); cerr == nil {
+			var cf failFile
+			if json.Unmarshal(cb, &cf) == nil {
+				ff.Sub, ff.Case = cf.Sub, cf.Case
+				ff.Message = "DATA RACE reported by the race detector while this script ran:\n" + tail(string(lg), 60)
+			}
+		}
 		data, _ = json.MarshalIndent(ff, "", " ")
 	}
 	sum := sha256.Sum256(data)
@@ -592,7 +605,7 @@ func replay(prop, file string) int {
 	}
 	dir := filepath.Join(root, ".build", prop+"-replay")
 	_ = os.MkdirAll(dir, 0o755)
-	bin, err := build(dir, false)
+	bin, err := build(dir, props[prop].Race)
 	if err != nil {
 		fatal2("build failed: %v", err)
 	}
@@ -600,6 +613,9 @@ func replay(prop, file string) int {
 	ctx, cancel := context.WithTimeout(context.Background(), 10*time.Minute)
 	defer cancel()
 	env := []string{"VCHECK_PROP=" + prop, "VCHECK_MODE=replay", "VCHECK_REPLAY=" + abs, "VCHECK_KNOWN=" + filepath.Join(root, "known_findings.json")}
+	if props[prop].Race {
+		env = append(env, "GORACE=halt_on_error=1 exitcode=66")
+	}
 	logPath := filepath.Join(dir, "replay.log")
 	code, rerr, to := runBin(ctx, bin, []string{"-test.run", "^TestReplay$", "-test.v"}, env, logPath)
 	lg, _ := os.ReadFile(logPath)
